@@ -13,6 +13,12 @@ package phttp
 //@ at call register.Gun#1 assert [http2-gun-gets-the-http2-defaults] arg(name) == "http2" && len(arg(defaultConfigOptional)) == 1 && arg(defaultConfigOptional)[0] == box(phttp.DefaultHTTP2GunConfig)
 //@ at call register.Gun#2 assert [connect-gun-gets-the-connect-defaults] arg(name) == "connect" && len(arg(defaultConfigOptional)) == 1 && arg(defaultConfigOptional)[0] == box(phttp.DefaultConnectGunConfig)
 
+// The guns are registered as factory constructors: the gun section is decoded, validated and pre-resolved once, when the
+// configuration is decoded (a mistake in it fails the decoding, not the first instance), and every instance gets a gun of its own.
+//@ at call register.Gun#0 assert [http-gun-section-is-decoded-with-the-configuration] typeis(arg(newGun), func(phttp.GunConfig) func() core.Gun)
+//@ at call register.Gun#1 assert [http2-gun-section-is-decoded-with-the-configuration] typeis(arg(newGun), func(phttp.GunConfig) func() (core.Gun, error))
+//@ at call register.Gun#2 assert [connect-gun-section-is-decoded-with-the-configuration] typeis(arg(newGun), func(phttp.GunConfig) func() core.Gun)
+
 //@ func Import#lit0
 //@ props C09
 //@ at call phttp.PreResolveTargetAddr assert [the-configured-target] arg(target) == conf.Target
